@@ -268,6 +268,21 @@ def main():
                 bad("Override:herd-exception:%s" % key, dict(exc=repr(ex)[:160]))
             finally:
                 ap.AnimalModelBuilder.create_animal_objects = o_create
+    # numeric overrides outside their documented range are refused by the dispatcher itself
+    for key, badval in (("RATIO_STOCKS_UNTOUCHED", -0.25), ("RATIO_STOCKS_UNTOUCHED", 1.5), ("MINIMUM_PERCENT_FED_BEFORE_NONHUMAN_CONSUMPTION_ALLOWED", -5),
+                        ("MINIMUM_PERCENT_FED_BEFORE_NONHUMAN_CONSUMPTION_ALLOWED", 150)):
+        for BASE in (BASE_COUNTRY, BASE_COUNTRY2):
+            opts = copy.deepcopy(BASE)
+            opts[key] = badval
+            rep["override_cases"] += 1
+            try:
+                with contextlib.redirect_stdout(io.StringIO()):
+                    sr.set_depending_on_option(opts, country_data=rows["ARG"])
+                bad("OverrideOutOfRangeRejected:%s=%r" % (key, badval), dict(override=key, value=badval))
+            except AssertionError:
+                pass
+            except BaseException as ex:  # noqa
+                bad("Override:exception:%s" % key, dict(exc=repr(ex)[:120]))
     json.dump(rep, open(sys.argv[2], "w"))
 
 
